@@ -34,6 +34,10 @@ type SimHooks struct {
 	Instr func(s *SimSlot)
 	// Go is called before starting the goroutine of a go statement.
 	Go func(parent, child *SimSlot)
+	// GoNative is called instead of starting the goroutine of a go statement
+	// that calls a native function with reflect: if it returns true, the
+	// simulator has taken charge of running call in a goroutine of its own.
+	GoNative func(parent *SimSlot, call func()) bool
 	// Close is called before closing a channel.
 	Close func(s *SimSlot, ch reflect.Value)
 	// BeforeRecv, BeforeSend and BeforeSelect are called immediately
@@ -108,4 +112,18 @@ func simAfterChanOp(vm *VM, cases []reflect.SelectCase, chosen int) {
 	if h := simHooks; h != nil && h.AfterChanOp != nil {
 		h.AfterChanOp(&vm.sim, cases, chosen)
 	}
+}
+
+func simGoNative(vm *VM, f reflect.Value, args []reflect.Value, variadic bool) bool {
+	h := simHooks
+	if h == nil || h.GoNative == nil {
+		return false
+	}
+	return h.GoNative(&vm.sim, func() {
+		if variadic {
+			f.CallSlice(args)
+		} else {
+			f.Call(args)
+		}
+	})
 }
